@@ -117,6 +117,17 @@ func runSolver(ctx context.Context, s solverCfg, file string, timeout float64) (
 
 // discharge decides one obligation with the portfolio.
 func discharge(o *Obligation, opt *solveOpts, idx int) {
+	if o.Kind == "jsonable" || o.Kind == "recover-frame" {
+		// structural obligations are decided by the generator itself (go/types, SSA shape)
+		o.Solver = "structural(go/types+ssa)"
+		if o.Goal == "true" {
+			o.Verdict = "unsat"
+		} else {
+			o.Verdict = "unknown"
+			o.Raw = "structural rule not satisfied: " + o.Desc
+		}
+		return
+	}
 	file := filepath.Join(opt.workDir, fmt.Sprintf("%04d_%s.smt2", idx, reSafe.ReplaceAllString(o.ID, "_")))
 	if len(file) > 200 {
 		file = file[:200] + ".smt2"
